@@ -12,6 +12,24 @@ pub struct C11;
 
 const ATTR_KEYS: &[(&str, &str)] = &[("", "k1"), ("", "k2"), ("urn:A", "k1"), ("", "k3")];
 const NS_KEYS: &[&str] = &["", "p", "q", "r"];
+/// size of the key pools in "wide" histories (maps that grow past 16 / 32 entries)
+const WIDE_POOL: usize = 40;
+
+fn attr_key(i: usize) -> (String, String) {
+    if i < ATTR_KEYS.len() {
+        (ATTR_KEYS[i].0.to_string(), ATTR_KEYS[i].1.to_string())
+    } else {
+        (if i % 3 == 0 { "urn:A".to_string() } else { String::new() }, format!("w{}", i))
+    }
+}
+
+fn ns_key(i: usize) -> String {
+    if i < NS_KEYS.len() {
+        NS_KEYS[i].to_string()
+    } else {
+        format!("w{}", i)
+    }
+}
 const URIS: &[&str] = &["urn:A", "urn:B", "urn:C"];
 const VALS: &[&str] = &["", "v", "w", "x y", "<&>"];
 
@@ -136,11 +154,13 @@ impl World {
     fn new(rng: &mut Rng) -> World {
         let mut xot = Xot::new();
         let mut akeys = Vec::new();
-        for (ns, l) in ATTR_KEYS {
-            let n = xot.add_namespace(ns);
-            akeys.push(xot.add_name_ns(l, n));
+        let pool = if rng.chance(1, 25) { WIDE_POOL } else { 4 };
+        for i in 0..pool {
+            let (ns, l) = attr_key(i);
+            let n = xot.add_namespace(&ns);
+            akeys.push(xot.add_name_ns(&l, n));
         }
-        let nkeys: Vec<PrefixId> = NS_KEYS.iter().map(|p| xot.add_prefix(p)).collect();
+        let nkeys: Vec<PrefixId> = (0..pool).map(|i| xot.add_prefix(&ns_key(i))).collect();
         let uris: Vec<NamespaceId> = URIS.iter().map(|u| xot.add_namespace(u)).collect();
         let name = xot.add_name("e");
         let e0 = xot.new_element(name);
@@ -165,16 +185,15 @@ impl World {
         };
         // start with 0-5 namespace and 0-5 attribute nodes (pool of 4 keys each)
         for which in 0..2 {
-            let na = rng.range(0, 4);
-            let nn = rng.range(0, 4);
-            let mut ak: Vec<usize> = (0..ATTR_KEYS.len()).collect();
+            let (na, nn) = if pool > 4 { (rng.range(10, pool), rng.range(10, pool)) } else { (rng.range(0, 4), rng.range(0, 4)) };
+            let mut ak: Vec<usize> = (0..pool).collect();
             rng.shuffle(&mut ak);
             for k in ak.into_iter().take(na) {
                 let v = rng.pick(VALS).to_string();
                 w.xot.attributes_mut(w.e[which].node).insert(w.akeys[k], v.clone());
                 w.e[which].attrs.push(AEntry { key: k, val: v, node: None });
             }
-            let mut nk: Vec<usize> = (0..NS_KEYS.len()).collect();
+            let mut nk: Vec<usize> = (0..pool).collect();
             rng.shuffle(&mut nk);
             for k in nk.into_iter().take(nn) {
                 let u = rng.below(URIS.len());
@@ -255,7 +274,7 @@ impl World {
         let which = if rng.chance(4, 5) { 0 } else { 1 };
         let other = 1 - which;
         let e = self.e[which].node;
-        let k = rng.below(4);
+        let k = rng.below(self.akeys.len());
         let v = rng.pick(VALS).to_string();
         let u = rng.below(URIS.len());
         let attr_side = rng.bool();
@@ -642,7 +661,7 @@ impl World {
                     };
                     desc = format!("{}(e{}, namespace prefix#{} -> uri#{})", how, which, k, u);
                     let (r, n) = if kind == 19 {
-                        let cn = xot::xmlname::CreateNamespace::new(&mut self.xot, NS_KEYS[k], URIS[u]);
+                        let cn = xot::xmlname::CreateNamespace::new(&mut self.xot, &ns_key(k), URIS[u]);
                         (self.xot.append_namespace(e, &cn), None)
                     } else {
                         let n = self.xot.new_namespace_node(key, uri);
@@ -738,14 +757,17 @@ impl World {
             return Some(format!("serialisation {:?} does not show the two elements", text));
         }
         for which in 0..2 {
-            let want_d: Vec<(String, String)> = self.e[which].nss.iter().map(|n| (NS_KEYS[n.key].to_string(), URIS[n.val].to_string())).collect();
+            let want_d: Vec<(String, String)> = self.e[which].nss.iter().map(|n| (ns_key(n.key), URIS[n.val].to_string())).collect();
             if es[which].decls != want_d {
                 return Some(format!("start tag of e{} lists declarations {:?}, the map order is {:?} (text {:?})", which, es[which].decls, want_d, text));
             }
             let want_a: Vec<(QName, String)> = self.e[which]
                 .attrs
                 .iter()
-                .map(|a| (QName::new(ATTR_KEYS[a.key].0, ATTR_KEYS[a.key].1), a.val.clone()))
+                .map(|a| {
+                    let (ns, l) = attr_key(a.key);
+                    (QName::new(&ns, &l), a.val.clone())
+                })
                 .collect();
             if es[which].attrs != want_a {
                 return Some(format!("start tag of e{} lists attributes {:?}, the map order is {:?} (text {:?})", which, es[which].attrs, want_a, text));
@@ -783,13 +805,13 @@ impl Monitor for C11 {
         vec![Stream::new("forced-empty-and-single", 8), Stream::new("histories", scaled(n, budget))]
     }
     fn rule(&self) -> String {
-        "two sibling elements starting with 0-4 namespace and 0-4 attribute entries (keys from pools of 4); histories of 1-40 map-style and node-style updates (insert, remove, get_mut, clear, every Entry path, set_/remove_ shorthands, append_*_node, any_append, append_namespace, detach/remove of entry nodes, moving an entry node in from the sibling); after every step every accessor of the read-only and the mutable view of both maps is compared with an ordered-map model, and the start tags of the serialisation are read by the independent XML reader. Non-trivial = >= 3 effective steps; distinct by hash of the step list".into()
+        "two sibling elements starting with 0-4 namespace and 0-4 attribute entries (keys from pools of 4; one history in twenty-five uses pools of 40 keys and starts with 10-40 entries per map, so that maps grow past 16 and 32 entries); histories of 1-40 map-style and node-style updates (insert, remove, get_mut, clear, every Entry path, set_/remove_ shorthands, append_*_node, any_append, append_namespace, detach/remove of entry nodes, moving an entry node in from the sibling); after every step every accessor of the read-only and the mutable view of both maps is compared with an ordered-map model, and the start tags of the serialisation are read by the independent XML reader. Non-trivial = >= 3 effective steps; distinct by hash of the step list".into()
     }
     fn floors(&self, _tier: Tier) -> Vec<(&'static str, u64)> {
-        vec![("steps_checked", 100_000), ("serialisations_checked", 10_000), ("views_compared_nonempty", 10_000), ("views_compared_empty", 1_000)]
+        vec![("steps_checked", 100_000), ("serialisations_checked", 10_000), ("views_compared_nonempty", 10_000), ("views_compared_empty", 1_000), ("wide_pool_histories", 500)]
     }
     fn assumptions(&self) -> Vec<String> {
-        vec!["key pools of 4 attribute names / 4 prefixes; values from a small pool".into()]
+        vec!["key pools of 4 (or 40) attribute names / prefixes; values from a small pool".into()]
     }
     fn run_case(&self, stream: usize, idx: u64, rng: &mut Rng, ctx: &mut Ctx) {
         let mut w = match guard(|| World::new(rng)) {
@@ -799,6 +821,9 @@ impl Monitor for C11 {
                 return;
             }
         };
+        if w.akeys.len() > 4 {
+            ctx.count("wide_pool_histories");
+        }
         if stream == 0 {
             // forced: empty maps and single-entry maps on e0
             let e = w.e[0].node;
